@@ -106,6 +106,17 @@ class Puppet(object):
         if n != len(data):
             raise PeerError('puppet wrote %d of %d bytes' % (n, len(data)))
 
+    def flood_start(self, stop, secs):
+        """numbered lines without pause until the peer reads one of the bytes `stop` (or `secs` have passed)"""
+        self.cmd('F %s %g' % (bytes(stop).hex(), secs))
+
+    def flood_result(self, timeout):
+        got = self._line(timeout)
+        if not got.startswith('f '):
+            raise PeerError('flood acknowledged %r' % got[:80])
+        a = got.split()
+        return int(a[1]), bool(int(a[2]))
+
     def close_stdio(self):
         self.cmd('C', 'c')
 
